@@ -417,7 +417,12 @@ func runC05CoreTxn(c *Ctx, in M) (out interface{}) {
 	if res != nil {
 		cnt = len(res.Entities)
 	}
-	return M{"completed": true, "accepted": true, "listed": cnt}
+	// the public namespaces written with the meta entity are what the dataset serves
+	pub := 0
+	if ds := h.Dsm.GetDataset("a"); ds != nil {
+		pub = len(ds.PublicNamespaces)
+	}
+	return M{"completed": true, "accepted": true, "listed": cnt, "public": pub}
 }
 
 func init() {
